@@ -2,7 +2,7 @@ import PyramidModel.Prelude
 import PyramidModel.Lemmas.SessionSpec
 /-! Driver for C10: one JSON case (a whole history) per line.
 in : {"cfg":{"timeout":n|null,"reissue":n|null,"soe":b,"dsize":n}, "clock0":q,
-      "reqs":[{"dq":n,"present":"latest"|"absent"|["issued",k]|"reject"|["wire",W],"ops":null|[[dq,OP],…],"raised":b},…]}
+      "reqs":[{"dq":n,"present":"latest"|"absent"|["issued",k]|"reject"|["wire",W]|["raw",JV],"ops":null|[[dq,OP],…],"raised":b},…]}
      W  = "nt" | [F,F,S]   F = q | "bad"   S = DATA | "nodict"
      JV = null | bool | int | string | {"l":[JV…]} | {"d":[[k,JV]…]}      DATA = [[k,JV]…]
      OP = ["get",k] ["get",k,d] ["getitem",k] ["contains",k] ["len"] ["keys"] ["items"] ["values"] ["iter"] ["set",k,v] ["del",k]
@@ -130,6 +130,7 @@ def parsePresent (j : Json) : Except String (Present DC) :=
   | .str "reject" => pure (.other .reject)
   | .arr #[.str "issued", k] => do let n : Nat ← fromJson? k; pure (.issued n)
   | .arr #[.str "wire", w] => do pure (.other (.wire (← parseWire w)))
+  | .arr #[.str "raw", v] => do pure (.other (.wire ((← parseJV v).toWire digitStrNum)))
   | _ => throw "bad present"
 
 def parseReq (j : Json) : Except String (Req DC) := do
